@@ -51,12 +51,12 @@ and the LTS accepts an action sequence from the LTS state of the old configurati
 are the `tx` observations of the step -/
 def StepGoal (cfg : Cfg) (fuel : Nat) (s : KS) (S : Sender ℚ) (txs : List (Nat × ℚ)) : Prop :=
   ∃ s' a' acts outs, step (body cfg) (fuel + 1) s = .ok s' ∧ KI none s' a' ∧ AInv cfg a' ∧
-    runLts S acts = .ok a'.S outs ∧ a'.txs = txs ++ outs.map txPair
+    runLts S acts = .ok a'.S outs ∧ a'.txs = txs ++ outs.map txPair ∧ ∀ x ∈ acts, ActOk x
 
 /-- the clock part of a kernel step -/
 theorem pop_tick {cfg : Cfg} {s : KS} {a : A} {q : QEntry ℚ} {rest : List (QEntry ℚ)} (hk : KI none s a) (hi : AInv cfg a)
     (hp : popMin s.agenda = some (q, rest)) :
-    ∃ acts0, runLts a.S acts0 = .ok (aTick a q.time).S [] ∧ AInv cfg (aTick a q.time) := by
+    ∃ acts0, runLts a.S acts0 = .ok (aTick a q.time).S [] ∧ AInv cfg (aTick a q.time) ∧ ∀ x ∈ acts0, ActOk x := by
   have hq : q ∈ s.agenda := (popMin_spec _ _ _ hp).1.symm.subset List.mem_cons_self
   have hle : a.S.now ≤ q.time := by
     have := hk.k.wf.due q hq
@@ -64,17 +64,22 @@ theorem pop_tick {cfg : Cfg} {s : KS} {a : A} {q : QEntry ℚ} {rest : List (QEn
     exact this
   rcases lt_or_eq_of_le hle with hlt | heq
   · obtain ⟨h1, h2⟩ := tick_ok hi (min_time hp hk.k.ag) hlt
-    exact ⟨[.tick q.time], runLts_one h1, h2⟩
+    exact ⟨[.tick q.time], runLts_one h1, h2, fun x hx => by
+      simp only [List.mem_singleton] at hx; subst hx; trivial⟩
   · rw [← heq]
-    exact ⟨[], rfl, hi⟩
+    exact ⟨[], rfl, hi, fun x hx => by cases hx⟩
 
 /-- the goal of a step from the goal after the clock has moved -/
 theorem StepGoal.of_tick {cfg : Cfg} {fuel : Nat} {s : KS} {a : A} {q : QEntry ℚ} {rest : List (QEntry ℚ)}
     (hk : KI none s a) (hi : AInv cfg a) (hp : popMin s.agenda = some (q, rest))
     (h : AInv cfg (aTick a q.time) → StepGoal cfg fuel s (aTick a q.time).S a.txs) : StepGoal cfg fuel s a.S a.txs := by
-  obtain ⟨acts0, h0, hiT⟩ := pop_tick hk hi hp
-  obtain ⟨s', a', acts, outs, g1, g2, g3, g4, g5⟩ := h hiT
-  exact ⟨s', a', acts0 ++ acts, outs, g1, g2, g3, by simpa using runLts_append h0 g4, g5⟩
+  obtain ⟨acts0, h0, hiT, hok0⟩ := pop_tick hk hi hp
+  obtain ⟨s', a', acts, outs, g1, g2, g3, g4, g5, g6⟩ := h hiT
+  refine ⟨s', a', acts0 ++ acts, outs, g1, g2, g3, by simpa using runLts_append h0 g4, g5, ?_⟩
+  intro x hx
+  rcases List.mem_append.mp hx with hx | hx
+  · exact hok0 x hx
+  · exact g6 x hx
 
 /-- a permutation goal from a permutation hypothesis between explicit concatenations, by counting -/
 macro "perm_from" h:term : tactic =>
@@ -280,7 +285,7 @@ theorem kstep_tmEnding {cfg : Cfg} (fuel : Nat) {s : KS} {a : A} {q : QEntry ℚ
   have pt := hk.k.ptm seq hs
   have fr : Frame s (openEvent s q rest) [a.tmp seq] [] := hqe ▸ openEvent_frame s q rest
   obtain ⟨k1, k2, k3, k4⟩ := hk.k.keepP fr pt
-  refine ⟨openEvent s q rest, { aTick a q.time with tph := upd a.tph seq .gone }, [], [], ?_, ⟨?_, ?_⟩, ?_, rfl, by simp [aTick]⟩
+  refine ⟨openEvent s q rest, { aTick a q.time with tph := upd a.tph seq .gone }, [], [], ?_, ⟨?_, ?_⟩, ?_, rfl, by simp [aTick], fun x hx => by cases hx⟩
   · exact step_noop _ _ hp (hqe ▸ hev.2.1) (hqe ▸ hev.2.2)
   · refine hk.k.opened hp ?_ rfl hiT.cur rfl rfl rfl rfl rfl (k1 (by omega) (by simp)) (k2 (by omega) (by simp)) ?_ hk.k.pnd ?_
     · have := tmEntries_upd_perm (keys := a.tks) hs hk.k.knd a.tph .gone
